@@ -137,8 +137,9 @@ pub fn run_sim(r: &Rendered) -> Obs {
     Obs { oc: oc.into(), st: res.status as i64, tr, detail }
 }
 
-const MK_SCRIPT: &str = "#!/bin/sh\necho \"$1:$3\"\nexit \"$2\"\n";
-const PROBE_SCRIPT: &str = "#!/bin/sh\necho \"$1:$2\"\nexit \"$2\"\n";
+// the helpers append to a log file: standard output may be a pipe of the program under test
+const MK_SCRIPT: &str = "#!/bin/sh\necho \"$1:$3\" >>./yvlog\nexit \"$2\"\n";
+const PROBE_SCRIPT: &str = "#!/bin/sh\necho \"$1:$2\" >>./yvlog\nexit \"$2\"\n";
 
 /// True entry point (`yash_cli::main()`) on the real OS.
 pub fn run_real_shell(r: &Rendered) -> Obs {
@@ -158,18 +159,23 @@ pub fn run_real_shell(r: &Rendered) -> Obs {
             FileSpec::Regular { path: "probe".into(), content: PROBE_SCRIPT.as_bytes().to_vec(), mode: 0o755 },
         ],
         mirror: false,
-        timeout: Duration::from_secs(10),
+        timeout: Duration::from_secs(60),
         env: vec![],
     };
     let res = run_real(&cfg);
-    let out = String::from_utf8_lossy(&res.stdout).into_owned();
+    let out = res
+        .files
+        .iter()
+        .find(|(p, _)| p == "yvlog")
+        .map(|(_, c)| String::from_utf8_lossy(c).into_owned())
+        .unwrap_or_default();
     let mut tr = vec![];
     let mut bad = String::new();
     for line in out.lines() {
         let mut it = line.splitn(2, ':');
         match (it.next().and_then(|a| a.parse::<i64>().ok()), it.next().and_then(|b| b.parse::<i64>().ok())) {
             (Some(m), Some(s)) => tr.push((m, s)),
-            _ => bad = format!("unparsable stdout line {line:?}"),
+            _ => bad = format!("unparsable log line {line:?}"),
         }
     }
     let oc = if res.timed_out { "timeout" } else { "completed" };
@@ -216,4 +222,36 @@ pub fn matches(exp_tr: &[(i64, i64)], exp_st: i64, obs: &Obs, multiset: bool) ->
         }
     }
     Ok(())
+}
+
+/// Development aid (oracle calibration, not part of any check): runs the
+/// real-OS rendering of a program with another POSIX shell (`--shell dash`).
+pub fn run_other_shell(shell: &str, r: &Rendered) -> Obs {
+    use std::process::{Command, Stdio};
+    static N: std::sync::atomic::AtomicUsize = std::sync::atomic::AtomicUsize::new(0);
+    let n = N.fetch_add(1, std::sync::atomic::Ordering::SeqCst);
+    let base = std::env::var("VERIF_SCRATCH").unwrap_or_else(|_| "/verif".to_string());
+    let dir = std::path::Path::new(&base).join("work").join("other").join(format!("{}-{}", std::process::id(), n));
+    let _ = std::fs::remove_dir_all(&dir);
+    std::fs::create_dir_all(&dir).expect("scratch");
+    for (name, body) in [("mk", MK_SCRIPT), ("probe", PROBE_SCRIPT)] {
+        let p = dir.join(name);
+        std::fs::write(&p, body).unwrap();
+        use std::os::unix::fs::PermissionsExt as _;
+        let _ = std::fs::set_permissions(&p, std::fs::Permissions::from_mode(0o755));
+    }
+    let mut cmd = Command::new(shell);
+    cmd.args(&r.flags).arg("-c").arg(&r.script).current_dir(&dir).env_clear().env("PATH", "/bin:/usr/bin")
+        .stdin(Stdio::null()).stdout(Stdio::null()).stderr(Stdio::null());
+    let st = cmd.status().map(|s| s.code().unwrap_or(-1)).unwrap_or(-1);
+    let out = std::fs::read_to_string(dir.join("yvlog")).unwrap_or_default();
+    let mut tr = vec![];
+    for line in out.lines() {
+        let mut it = line.splitn(2, ':');
+        if let (Some(m), Some(s)) = (it.next().and_then(|a| a.parse::<i64>().ok()), it.next().and_then(|b| b.parse::<i64>().ok())) {
+            tr.push((m, s));
+        }
+    }
+    let _ = std::fs::remove_dir_all(&dir);
+    Obs { oc: "completed".into(), st: st as i64, tr, detail: String::new() }
 }
